@@ -19,10 +19,11 @@ HASH_PROPS = {
              "IsalVerif.HashMB.C11_nopoison", "IsalVerif.HashMB.C11_reject_code",
              "IsalVerif.HashMB.C11_unfixed_poisons", "IsalVerif.HashMB.C11_base_nopoison",
              "IsalVerif.HashMB.C11_base_reject", "IsalVerif.HashMB.C11_base_unfixed_poisons"]),
-    "C01": (("C01-",), 0, "IsalVerif.Props.C01",
+    "C01": (("C01-",), 0, "IsalVerif.Props.C01Base",
             ["IsalVerif.HashMB.C01", "IsalVerif.HashMB.C01_reuse", "IsalVerif.HashMB.C01_append",
              "IsalVerif.HashMB.C01_segmentation", "IsalVerif.HashMB.C01_is_standard",
-             "IsalVerif.HashMB.C01_params_ok"]),
+             "IsalVerif.HashMB.C01_params_ok", "IsalVerif.HashMB.C01_base", "IsalVerif.HashMB.baseUpdate_core",
+             "IsalVerif.HashMB.baseFinal_blocks", "IsalVerif.HashMB.baseAccepted_rel"]),
 }
 
 
@@ -44,7 +45,7 @@ def check_hash(pid, tier, replay=None):
     if tier == "quick":
         nops, maxlen, seeds = 2500, 6000, [chk.seed]
     else:
-        nops, maxlen, seeds = 40000, 300000, [chk.seed * 100 + k for k in range(6)]
+        nops, maxlen, seeds = 20000, 60000, [chk.seed * 100 + k for k in range(3)]
     fams = hashcheck.FAMILIES + (hashcheck.PUB if pid in ('C11', 'C06') else [])
     results = hashcheck.sweep(chk, drv, nops, maxlen, rej, seeds, families=fams)
     total_ops = 0
@@ -228,7 +229,7 @@ def check_mh(pid, tier, replay=None):
     if tier == "quick":
         nops, maxlen, seeds = 1200, 5000, [chk.seed]
     else:
-        nops, maxlen, seeds = 6000, 300000, [chk.seed * 100 + k for k in range(4)]
+        nops, maxlen, seeds = 6000, 100000, [chk.seed * 100 + k for k in range(4)]
     d = vlib.scratch()
 
     def one(job):
@@ -696,7 +697,7 @@ def check_c15(pid, tier, replay=None):
         # every crossing (2^29, 2^32, 2^32+2^29, 2^35, 2^60) on every family, cheaply: the harness jumps the running total of
         # idle contexts (op `T`), the model does the same; all later paddings / totals must agree line by line
         drv2 = vlib.harness_bin("drv_hash", extra_src=vlib.TRAMP_SRC)
-        nops2 = 2500 if tier == "quick" else 40000
+        nops2 = 2500 if tier == "quick" else 20000
         jumps = 0
         for r in hashcheck.sweep(chk, drv2, nops2, 6000, 0, [chk.seed * 13 + 5], families=hashcheck.FAMILIES):
             key = "%s/%s" % (r["alg"], r["fam"])
